@@ -271,6 +271,7 @@ pub struct World {
     pub deep: bool,
     pub stream_name: String,
     pub topic_name: String,
+    pub named_ids: bool,
     pub len_at_restart: BTreeMap<u32, u64>,
     /// a second topic (id 2) in the same stream that holds data of its own (sums, isolation of limits)
     pub sibling: bool,
@@ -336,6 +337,7 @@ impl World {
             deep: false,
             stream_name: "s1".into(),
             topic_name: "t1".into(),
+            named_ids: false,
             len_at_restart: BTreeMap::new(),
             sibling: false,
             sib_msgs: 0,
@@ -427,6 +429,12 @@ impl World {
         )
         .await?
         .map_err(|e| Stop::Inconclusive(format!("create_topic: {e}")))?;
+        if self.named_ids {
+            // every later command names the stream and the topic by name: the journal (purge, partitions, groups) then carries the names
+            self.stream = Identifier::named(&self.stream_name).map_err(|e| Stop::Inconclusive(e.to_string()))?;
+            self.topic = Identifier::named(&self.topic_name).map_err(|e| Stop::Inconclusive(e.to_string()))?;
+        }
+        let c = self.c();
         for (id, name) in GROUPS.iter() {
             timed("create_group", c.create_consumer_group(&self.stream, &self.topic, name, Some(*id)))
                 .await?
